@@ -539,9 +539,9 @@ def run(ctx):
     ctx.assumptions += ["item fields are only accessed by the statements of queue.go (the instrumenter places a yield point before each)",
                         "stream-level theorems treat a subscriber's queue as an atomic FIFO; that is what the queue-level theorem proves for the non-recycling queue"]
     thorough = ctx.thorough
-    n_q = 1500 if thorough else 400
-    n_seq = 800 if thorough else 200
-    n_t = 1200 if thorough else 300
+    n_q = 3000 if thorough else 400
+    n_seq = 1500 if thorough else 200
+    n_t = 2500 if thorough else 300
     rounds = 150 if thorough else 40
 
     inst, msg = sched_util.instrument(ctx, "internal/queue/queue.go", "queue_instr.go", RULES, FIELDS)
@@ -750,6 +750,7 @@ THEOREMS = ["C20_pool_aba_refuted", "C20_pool_value_cleared_refuted", "C20_queue
             "C20_stream_unsubscribed_stays_out"]
 
 META = {
+    "ready": True,
     "category": "proof",
     "technique": "Rocq proof over a hand-written atomic-step model + trace conformance of the instrumented real code under a controlled scheduler + independent oracle",
     "text": "internal/queue (Michael-Scott queue) modelled at atomic-step granularity with and without sync.Pool node recycling; event stream modelled at critical-section granularity.",
